@@ -177,7 +177,7 @@ def scenario_leg(ctx, exhaustive):
     from hugr.build.dfg import Dfg
 
     ch = ctx.ch
-    which = ch.draw(6, "scenario")
+    which = ch.draw(7, "scenario")
     B, Q = tys.Bool, tys.Qubit
     ctx.profile = {"leg": "scenario", "scenario": which}
     if which == 0:
@@ -311,6 +311,43 @@ def scenario_leg(ctx, exhaustive):
         probe_handle(ctx, inner.parent_node, n_out, "dfg-closed-after-stray-output-link", exhaustive)
         node = next(c for c in d.hugr.children(d.parent_node) if c.idx == inner.parent_node.idx)
         probe_handle(ctx, node, n_out, "children()-after-stray-output-link", False)
+        return
+    if which == 6:
+        # (g) size class: a container is opened, many siblings are added after it, only then are its outputs set
+        kind = ch.pick(["dfg", "tailloop", "conditional", "cfg"], "container")
+        n_out = 1 + ch.draw(3, "n-out")
+        later = ch.pick([1, 8, 31, 32, 33, 40, 70, 130], "later-siblings")
+        d = Dfg(B)
+        (b,) = d.inputs()
+        if kind == "dfg":
+            inner = d.add_nested(b)
+        elif kind == "tailloop":
+            inner = d.add_tail_loop([], [b])
+            n_out = 1
+        elif kind == "conditional":
+            inner = d.add_conditional(b)
+        else:
+            inner = d.add_cfg(*[b] * n_out)
+        for _ in range(later):
+            d.add_op(ops.Noop(B), b)
+        ctx.ev(0, f"{kind} opened, {later} siblings added, then outputs set", n_out)
+        ctx.probe("container_closed_after_32_or_more_later_siblings" if later >= 32 else "container_closed_after_later_siblings")
+        if kind == "dfg":
+            inner.set_outputs(*[inner.inputs()[0]] * n_out)
+        elif kind == "tailloop":
+            inner.set_loop_outputs(inner.add_op(ops.Tag(1, tys.Sum([[], []]))), *inner.inputs())
+        elif kind == "conditional":
+            for k in (0, 1):
+                with inner.add_case(k) as c:
+                    c.set_outputs(*[c.load(val.TRUE) for _ in range(n_out)])
+        else:
+            with inner.add_entry() as e:
+                e.set_single_succ_outputs(*e.inputs())
+            inner.branch_exit(e[0])
+        ctx.steps += 3
+        probe_handle(ctx, inner.parent_node, n_out, f"{kind}-closed-after-later-siblings", exhaustive)
+        node = next(c for c in d.hugr.children(d.parent_node) if c.idx == inner.parent_node.idx)
+        probe_handle(ctx, node, n_out, "children()-after-later-siblings", False)
         return
     # (c) last output linked early through the graph API
     kind = ch.pick(["dfg", "tailloop", "conditional", "cfg"], "container")
